@@ -15,6 +15,7 @@ type Ctx struct {
 	done     *Chan[struct{}]
 	realDone chan struct{}
 	err      error
+	cause    error // context.Cause: the reason given to a CancelCauseFunc (nil: err)
 	vc       vclock
 }
 
@@ -28,6 +29,7 @@ func WithCancel(parent context.Context) (context.Context, context.CancelFunc) {
 	c := &Ctx{parent: parent, done: &Chan[struct{}]{c: newCore(0)}, realDone: make(chan struct{})}
 	if p, ok := parent.(*Ctx); ok {
 		if p.err != nil {
+			c.cause = p.cause
 			c.cancelNow(p.err, p.vc)
 		} else {
 			p.children = append(p.children, c)
@@ -36,6 +38,37 @@ func WithCancel(parent context.Context) (context.Context, context.CancelFunc) {
 		panic("vsched: WithCancel on a cancellable context that is not controlled by vsched")
 	}
 	return c, func() { c.Cancel(context.Canceled) }
+}
+
+// WithCancelCause replaces context.WithCancelCause: Err() reports context.Canceled,
+// Cause(ctx) the error handed to the cancel function (context.Canceled for nil).
+func WithCancelCause(parent context.Context) (context.Context, context.CancelCauseFunc) {
+	if S == nil {
+		return context.WithCancelCause(parent)
+	}
+	ctx, _ := WithCancel(parent)
+	c := ctx.(*Ctx)
+	return c, func(cause error) {
+		if cause == nil {
+			cause = context.Canceled
+		}
+		c.CancelCause(context.Canceled, cause)
+	}
+}
+
+// Cause replaces context.Cause (a scheduling point, like Err).
+func Cause(ctx context.Context) error {
+	c, ok := ctx.(*Ctx)
+	if !ok {
+		return context.Cause(ctx)
+	}
+	if err := c.Err(); err == nil {
+		return nil
+	}
+	if c.cause != nil {
+		return c.cause
+	}
+	return c.err
 }
 
 // WithTimeout and WithDeadline are modelled as WithCancel: time never passes in
@@ -67,8 +100,26 @@ func (c *Ctx) cancelNow(err error, vc vclock) {
 	c.done.c.closeVC = vc
 	close(c.realDone)
 	for _, ch := range c.children {
+		if ch.err == nil {
+			ch.cause = c.cause
+		}
 		ch.cancelNow(err, vc)
 	}
+}
+
+// CancelCause is Cancel with a cause for Cause(ctx).
+func (c *Ctx) CancelCause(err, cause error) {
+	s := S
+	if s == nil || s.aborting {
+		return
+	}
+	if c.err != nil {
+		return
+	}
+	s.yield(localOp{name: "ctx.cancel", f: func() {
+		c.cause = cause
+		c.cancelNow(err, s.hb.release(s.cur))
+	}})
 }
 
 // Cancel cancels c and everything derived from it (a visible operation).
